@@ -4264,6 +4264,7 @@ pub fn to_c_ident(name: &str) -> String {
         "try" => "try_".into(),
         "typedef" => "typedef_".into(),
         "typeid" => "typeid_".into(),
+        "typeof" => "typeof_".into(),
         "typename" => "typename_".into(),
         "union" => "union_".into(),
         "unsigned" => "unsigned_".into(),
